@@ -24,6 +24,7 @@ func runC05(c *core.Ctx) {
 	c.RuleDoc("R05.2", "path fields in the caller's namespace; inner/OS-namespace errors translated with the right pair")
 	c.RuleDoc("R05.3", "mount translator is expansive")
 	c.RuleDoc("R05.10", "a two-name helper translates its delegate's error with both of the caller's names")
+	c.RuleDoc("R05.12", "a failing path above a view's base (or the OS root) is reported as \".\"")
 	c.RuleDoc("R05.11", "the mount error translator compares the failing path only within its own namespace")
 	c.RuleDoc("R05.9", "the error of a recursive call on other names is wrapped again under the caller's names")
 	c.RuleDoc("R05.8", "outside MkdirAll/RemoveAll no error is built with the parent of a name as its path")
@@ -63,6 +64,7 @@ func runC05(c *core.Ctx) {
 		r05RecursionRewraps(c, p)
 		r05TwoNameTranslation(c, p)
 		r05NamespaceTyped(c, p)
+		r05AncestorsOfTheRoot(c, p)
 		if p.Target == load.Linux {
 			r05NotDirThroughFile(c, p, "R05.7")
 		}
@@ -76,6 +78,7 @@ func runC05(c *core.Ctx) {
 	c.Floor("R05.9", 2)
 	c.Floor("R05.10", 1)
 	c.Floor("R05.11", 2)
+	c.Floor("R05.12", 2)
 }
 
 func nameParamIdx(fn *ssa.Function) []int {
@@ -995,4 +998,46 @@ func originOrConcat(v ssa.Value, root *ssa.Parameter, d int, seen map[ssa.Value]
 		}
 	}
 	return false
+}
+
+// r05AncestorsOfTheRoot (R05.12): a translator that cuts a view's base (or an OS root) off a failing path also answers
+// the case that the failing path lies ABOVE the base — an ancestor that is not a directory — with ".": every cut
+// `TrimPrefix(x, base+sep)` in the mount error translator and in os.relPath is accompanied, in the same function, by
+// a test HasPrefix(base, x+sep) whose true edge returns ".".
+func r05AncestorsOfTheRoot(c *core.Ctx, p *load.Program) {
+	for _, tf := range []struct {
+		rel, name string
+		min       int
+	}{{"", "mountedPathToCaller", 2}, {"os", "relPath", 1}} {
+		fn := p.Func(tf.rel, tf.name)
+		if fn == nil {
+			c.Hard("anchor: %s.%s", tf.rel, tf.name)
+			continue
+		}
+		guards := 0
+		for _, b := range fn.Blocks {
+			ifi, ok := b.Instrs[len(b.Instrs)-1].(*ssa.If)
+			if !ok {
+				continue
+			}
+			cl, ok := ifi.Cond.(*ssa.Call)
+			if !ok || !ssax.CalleeIs(cl, "strings", "HasPrefix") || !endsInSlash(cl.Call.Args[1]) {
+				continue
+			}
+			// the tested prefix is <failing path> + sep: its left operand is the function's first parameter
+			bo, ok := cl.Call.Args[1].(*ssa.BinOp)
+			if !ok || bo.X != ssa.Value(fn.Params[0]) {
+				continue
+			}
+			// the true edge returns "."
+			if ret, ok := b.Succs[0].Instrs[len(b.Succs[0].Instrs)-1].(*ssa.Return); ok && len(ret.Results) == 1 {
+				if s, isC := ssax.ConstString(ret.Results[0]); isC && s == "." {
+					guards++
+				}
+			}
+		}
+		key := fname(fn) + "|ancestors-of-the-root-answer-dot"
+		c.Check(guards >= tf.min, "R05.12", key, p.Pos(fn.Pos()), fmt.Sprintf("%d ancestor guard(s) returning \".\"", guards),
+			fmt.Sprintf("%s cuts the view's base off a failing path but does not answer a failing path ABOVE the base (found %d guard(s) of the form HasPrefix(base, p+sep) -> \".\", need %d): Sub(fs, \"f/base\") with f a regular file, then MkdirAll(view, \"x\"), reports the parent's path \"f\" (os.FS: an OS path outside the root)", fname(fn), guards, tf.min))
+	}
 }
